@@ -95,6 +95,27 @@ def gen_cases(rng, tier):
         long_ = n > 8192
         yield {'op': 'findall' if long_ else rng.choice(['find', 'rfind', 'findall', 'findall', 'contains']), 'cls': rng.choice(CLASSES), 'data': data, 'pat': pat, 'start': a, 'end': b,
                'ba': False if long_ else rng.choice([None, False, True]), 'opt_ba': False, 'ptype': 'bits', 'count': None if long_ else rng.choice([None, None, 1, 2, 5]), 'lsb0': True}
+    # histories on ONE mutable object: searches of every kind interleaved with in-place changes; every search is judged on the content the object has then
+    for i in range(60 if tier == 'quick' else 1000):
+        n = 8 * rng.choice([2, 3, 4, 6, 8, 12])
+        unit = rng.choice(['0100011100000000', '01000111', '1111000000001111', '00000000', None, None])
+        data = (unit * (n // len(unit) + 1))[:n] if unit else rand_bits(rng, n, 'rand')
+        steps = []
+        for _ in range(rng.randrange(3, 9)):
+            if rng.random() < 0.6:
+                whole = rng.random() < 0.6
+                pl = 8 * rng.choice([1, 1, 2]) if whole else rng.choice([1, 2, 3, 5, 9])
+                j = (8 * rng.randrange(0, max(1, (n - pl) // 8 + 1))) if whole else rng.randrange(0, max(1, n - pl))
+                pat = data[j:j + pl] if rng.random() < 0.7 else rand_bits(rng, pl, 'rand')
+                if not pat: continue
+                a, b = rand_window(rng, n) if rng.random() < 0.3 else (None, None)
+                steps.append({'op': rng.choice(['find', 'findall', 'findall', 'rfind', 'split', 'contains', 'replace']), 'pat': pat, 'start': a, 'end': b,
+                              'ba': True if whole and rng.random() < 0.8 else rng.choice([None, False]), 'count': rng.choice([None, None, 1, 2]), 'new': rand_bits(rng, pl, 'rand'), 'ptype': 'bits'})
+                if steps[-1]['op'] == 'contains': steps[-1].update(start=None, end=None)
+            else:
+                m = rng.choice(['iand', 'ior', 'ixor', 'iand', 'ior', 'ixor', 'invert', 'append', 'setslice', 'reverse', 'ilshift', 'overwrite', 'del', 'byteswap', 'setbit', 'imul'])
+                steps.append({'mut': m, 'mask': rand_bits(rng, 1, 'rand') , 'seed': rng.randrange(1 << 30)})
+        yield {'op': 'history', 'cls': rng.choice(MUTABLE), 'data': data, 'steps': steps, 'opt_ba': False, 'pat': 'x', 'ba': None, 'start': None, 'end': None}
     if tier == 'thorough':
         for n in range(0, 9):
             for v in range(1 << n):
@@ -113,8 +134,58 @@ def mkpat(c):
     if c['ptype'] == 'bits': return bitstring.Bits(bin=c['pat'])
     return promotable(c['pat'], c['ptype'])
 
+def run_history(c):
+    import bitstring, random
+    s = build(c['cls'], c['data'], 'bin')
+    trace = []
+    for st in c['steps']:
+        before = s.bin
+        if 'mut' in st:
+            r = random.Random(st['seed']); n = len(s); m = st['mut']
+            mask = ''.join(r.choice('01') for _ in range(n))
+            def g():
+                nonlocal s
+                if m == 'iand': s &= bitstring.Bits(bin=mask)
+                elif m == 'ior': s |= bitstring.Bits(bin=mask)
+                elif m == 'ixor': s ^= bitstring.Bits(bin=mask)
+                elif m == 'invert': s.invert()
+                elif m == 'append': s.append('0x47')
+                elif m == 'setslice': s[8:16] = '0x47'
+                elif m == 'reverse': s.reverse()
+                elif m == 'ilshift': s <<= 8
+                elif m == 'overwrite': s.overwrite('0x4700', 0)
+                elif m == 'del': del s[0:8]
+                elif m == 'byteswap': s.byteswap(2)
+                elif m == 'setbit': s[r.randrange(max(1, n))] = 1
+                elif m == 'imul': s *= 2
+            res = attempt(g, 10)
+            trace.append(['mut', before, list(res) if res[0] == 'err' else ['ok'], s.bin])
+        else:
+            kw = {} if st['ba'] is None else {'bytealigned': st['ba']}
+            P = bitstring.Bits(bin=st['pat']); op = st['op']
+            def f():
+                if op == 'find': return list(s.find(P, st['start'], st['end'], **kw))
+                if op == 'rfind': return list(s.rfind(P, st['start'], st['end'], **kw))
+                if op == 'findall': return list(s.findall(P, st['start'], st['end'], st['count'], **kw))
+                if op == 'contains': return P in s
+                if op == 'split': return [x.bin for x in s.split(P, st['start'], st['end'], st['count'], **kw)]
+                if op == 'replace':
+                    r_ = s.replace(P, bitstring.Bits(bin=st['new']), st['start'], st['end'], st['count'], **kw)
+                    return [s.bin, r_]
+            trace.append(['search', before, list(attempt(f, 20)), s.bin])
+    return ('ok', trace)
+
+def history_steps(c, obs):
+    """the searches of a history as ordinary single cases on the content the object had when they were made"""
+    out = []
+    for st, tr in zip(c['steps'], obs[1]):
+        if tr[0] != 'search': continue
+        out.append((dict(st, data=tr[1], cls=c['cls'], opt_ba=False), tuple(tr[2]) if tr[2][0] == 'err' else ('ok', tr[2][1])))
+    return out
+
 def run_impl(c):
     import bitstring
+    if c['op'] == 'history': return run_history(c)
     bitstring.options.bytealigned = c['opt_ba']
     s = build(c['cls'], c['data'], 'bin')
     op = c['op']
@@ -155,6 +226,12 @@ def expected(c):
     if op == 'replace': return R.call(lambda: list(R.replace(d, p, c['new'], c['start'], c['end'], c['count'], ba)))
 
 def oracle(c, obs):
+    if c['op'] == 'history':
+        if obs[0] != 'ok': return f"history {c} raised {obs}"
+        for c2, o2 in history_steps(c, obs):
+            m = oracle(c2, o2)
+            if m: return 'after the earlier steps of a history on one object (' + ', '.join(st.get('mut') or st['op'] for st in c['steps']) + '): ' + m
+        return None
     exp = expected(c)
     if tuple(obs) != tuple(exp):
         return (f"{c['cls']}.{c['op']} data={c['data'][:80]!r}{'...' if len(c['data']) > 80 else ''}({len(c['data'])}) pat={c['pat']!r} "
@@ -162,6 +239,7 @@ def oracle(c, obs):
     return None
 
 def nontrivial(c, obs):
+    if c['op'] == 'history': return True
     return bool(c['pat']) and c['pat'] in c['data']
 
 def classify(c, obs): return None
@@ -169,6 +247,11 @@ def classify(c, obs): return None
 def cob(x): return copt(x, cz)
 
 def coq_check(c, obs):
+    if c['op'] == 'history':
+        if obs[0] != 'ok': return 'false'
+        ts = [coq_check(c2, o2) for c2, o2 in history_steps(c, obs)]
+        ts = ['(' + t + ')' for t in ts if t]
+        return ' && '.join(ts) if ts else None
     op = c['op']
     if len(c['data']) > 3000 and op in ('split', 'replace', 'cut'): return None
     if len(c['data']) > 10000: return None
